@@ -694,7 +694,13 @@ def pmap(fn, items, procs=NCPU, chunksize=1, empty=list):
     else:
         ctx = mp.get_context("fork")
         with ctx.Pool(min(procs, len(items))) as pool:
-            raw = pool.map(g, items, chunksize)
+            # a worker that dies or never returns must not hang the check: give up after a (generous) limit
+            limit = float(os.environ.get("BCVERIF_PMAP_TIMEOUT", "14400"))
+            try:
+                raw = pool.map_async(g, items, chunksize).get(timeout=limit)
+            except mp.TimeoutError:
+                pool.terminate()
+                raise MachineryError("driver jobs of %s did not finish within %.0f s" % (getattr(fn, "__name__", fn), limit))
     out = []
     for r in raw:
         for (exc, tb) in r[2]:
